@@ -323,8 +323,25 @@ FAULTS = [
 ]
 
 
+PYCLASS = [chr(0xe9), chr(0xb2), chr(0xb9), chr(0x2460), chr(0x663), chr(0xff12), chr(0x3b1), chr(0xaa), chr(0xff21), chr(0x4e2d), chr(0x1d7d8), chr(0xa0), chr(0x2003), '.', ',', '[', '*', '&', '!', ':']
+
+
+def all_faults():
+    """FAULTS plus names (anchors, aliases, tag handles) made of characters that Python's str predicates accept as letters or
+    digits and YAML's name grammar does not."""
+    out = list(FAULTS)
+    for w in PYCLASS:
+        for nm in (w, 'a' + w, w + '1', 'a' + w + 'b'):
+            out.append(('anchor_char', [['SS'], ['DS', False, None, None], ['SC', nm, None, [True, True], 'v', None], ['DE', False], ['SE']]))
+            out.append(('anchor_char_seq', [['SS'], ['DS', False, None, None], ['QS', nm, None, True, True], ['QE'], ['DE', False], ['SE']]))
+            out.append(('alias_char', [['SS'], ['DS', False, None, None], ['AL', nm], ['DE', False], ['SE']]))
+            if w not in '!':
+                out.append(('handle_char', [['SS'], ['DS', True, None, {'!' + nm + '!': 'tag:x:'}], ['SC', None, None, [True, True], 'v', None], ['DE', False], ['SE']]))
+    return out
+
+
 def faults(ctx):
-    for name, spec in FAULTS:
+    for name, spec in all_faults():
         for dname in ['Dumper', 'CDumper']:
             if dname.startswith('C') and not yamlapi.HAVE_C:
                 continue
